@@ -43,7 +43,68 @@ def fmtErr : SanityErr → String
   | .rootFail => "err root-fail"
   | .badRoot => "err bad-root"
 
+/-- pact.MaxTxPerBlock, MaxBlockHeaderSize, MaxBlockContextSize (defaults; boundary ops tie them) -/
+def limits : Limits := ⟨10000, 1000000, 8000000⟩
+
+/-- header part + size clauses + transaction part, in the order of `CheckBlockSanity`.
+    `pre` ∈ ok | auxpow | pow | time (the first failing header check), `size` = hdrSize:blkSize. -/
+def sanityVerdict (pre size special : String) (root : List UInt8) (txs : List (Tx (List UInt8) String)) : String :=
+  if pre != "ok" then "err " ++ pre else
+  match size.splitOn ":" with
+  | [h, b] =>
+    match nat? h, nat? b with
+    | some h, some b =>
+      match sizeChecks limits txs.length h b with
+      | some .noTx => "err no-tx"
+      | some .tooMany => "err too-many"
+      | some .hdrBig => "err hdr-big"
+      | some .blkBig => "err blk-big"
+      | none =>
+        match blockSanityTx hashPair root txs (special == "1") with
+        | none => "ok"
+        | some e => fmtErr e
+    | _, _ => "bad-op"
+  | _ => "bad-op"
+
+def parseSp (s : String) : Option SpTx :=
+  match s.splitOn ":" with
+  | ["rs"] => some .sponsor
+  | ["ot"] => some .other
+  | ["ws", ok, hs] => some (.withdraw (ok == "1") (if hs == "-" then [] else hs.splitOn ";"))
+  | ["rp", ok, o, n] => some (.regProducer (ok == "1") o n)
+  | ["up", ok, o, n] => some (.updProducer (ok == "1") o n)
+  | ["cp", ok, o] => some (.cancelProducer (ok == "1") o)
+  | ["rc", ok, c] => some (.regCR (ok == "1") c)
+  | ["uc", ok, c] => some (.updCR (ok == "1") c)
+  | ["xc", ok, c] => some (.unregCR (ok == "1") c)
+  | _ => none
+
+def parseSps : List String → Option (List SpTx)
+  | [] => some []
+  | s :: r => match parseSp s, parseSps r with
+    | some a, some b => some (a :: b)
+    | _, _ => none
+
+def fmtDup : DupErr → String
+  | .dupSponsor => "err dup-sponsor"
+  | .dupSide => "err dup-side"
+  | .badRegProducer => "err bad-reg-producer"
+  | .badUpdProducer => "err bad-upd-producer"
+  | .badCancelProducer => "err bad-cancel-producer"
+  | .dupProducer => "err dup-producer"
+  | .dupNode => "err dup-node"
+  | .badRegCR => "err bad-reg-cr"
+  | .badUpdCR => "err bad-upd-cr"
+  | .badUnregCR => "err bad-unreg-cr"
+  | .dupCR => "err dup-cr"
+  | .panic => "panic"
+
 def stepC07 : List String → String
+  | "duptx" :: txs => match parseSps txs with
+    | some l => match checkDuplicateTx l {} with
+      | none => "ok"
+      | some e => fmtDup e
+    | none => "bad-op"
   | ["root", hs] => match parseHashes hs with
     | some l => match computeRoot hashPair l with
       | .ok r => "ok " ++ toHex r
@@ -53,13 +114,7 @@ def stepC07 : List String → String
   | "sanity" :: _blk :: pre :: size :: special :: root :: txs =>
     match hexBytes? root, parseTxs txs with
     | some root, some txs =>
-      -- order of CheckBlockSanity: header checks, "no transactions", size checks, transaction part
-      if pre != "1" then "err pre"
-      else if txs.isEmpty then "err no-tx"
-      else if size != "1" then "err size"
-      else match blockSanityTx hashPair root txs (special == "1") with
-        | none => "ok"
-        | some e => fmtErr e
+      sanityVerdict pre size special root txs
     | _, _ => "bad-op"
   | "orphan" :: depth :: _k :: _mut :: pre :: size :: special :: root :: txs =>
     -- the block is delivered while its parent is unknown: ProcessBlock runs CheckBlockSanity BEFORE
@@ -67,13 +122,7 @@ def stepC07 : List String → String
     -- waits as an orphan and is connected when its ancestors arrive.
     match nat? depth, hexBytes? root, parseTxs txs with
     | some depth, some root, some txs =>
-      let verdict :=
-        if pre != "1" then "err pre"
-        else if txs.isEmpty then "err no-tx"
-        else if size != "1" then "err size"
-        else match blockSanityTx hashPair root txs (special == "1") with
-          | none => "ok"
-          | some e => fmtErr e
+      let verdict := sanityVerdict pre size special root txs
       if verdict == "ok" then s!"first=orphan tip={depth} bound=1"
       else s!"first={verdict.replace " " ":"} tip={depth - 1} bound=1"
     | _, _, _ => "bad-op"
